@@ -1,5 +1,6 @@
 import AvoVerif.Props.C14
 import AvoVerif.Props.C14Tables
+import AvoVerif.Props.C14Bounds
 #print axioms Avo.Tags.tags_equiv
 #print axioms Avo.Tags.header_psize
 #print axioms Avo.Tags.tags_format_text
@@ -21,3 +22,17 @@ import AvoVerif.Props.C14Tables
 #print axioms Avo.Tags.tags_roundtrip_installed
 #print axioms Avo.Tags.f8_installed
 #print axioms Avo.Tags.valid_nonempty
+#print axioms Avo.Tags.tags_equiv_selects
+#print axioms Avo.Tags.formatChecked_cases
+#print axioms Avo.Tags.acceptObs_sound
+#print axioms Avo.Tags.long_term_format_error
+#print axioms Avo.Tags.tags_equiv_fails_long_term
+#print axioms Avo.Tags.printable_of_checks
+#print axioms Avo.Tags.printable_at_operand_limit
+#print axioms Avo.Tags.printable_at_line_limit
+#print axioms Avo.Tags.exampleCs_printable
+#print axioms Avo.Tags.split_eq_splitFast
+#print axioms Avo.Tags.fields_eq_fieldsFast
+#print axioms Avo.Tags.utf8Len_print_le
+#print axioms Avo.Tags.weight_header
+#print axioms Avo.Tags.printable_of_bounds
